@@ -11,9 +11,10 @@
     permutations ([C03_remove_moves], [C03_drain_moves], ...).  The erased destructor's stride and
     the by-count accounting of zero-sized values are part of [clear_ok]/[drain_drop_spec] (events
     list every value once; for size 0 all tokens are 0, so equality of event lists is equality of
-    counts).  PARTIAL: the composition over whole multi-vector histories (an induction over
-    [Interp.exec]) is not mechanised; it is covered by the correspondence check with the identity
-    registry. *)
+    counts).  (3) The composition over whole multi-vector histories IS mechanised for the
+    fragment of operations listed in AV.Props.C01 (block "histories" below: [C03_history_*]); for
+    the operations outside that fragment (drain / splice / clone / lazy clones inside a history)
+    the composition is covered by the correspondence check with the identity registry. *)
 From Coq Require Import List NArith Permutation.
 From AV.Spec Require Import VecSpec.
 From AV.Proofs Require Import OwnProofs.
@@ -81,6 +82,70 @@ Theorem C03_splice_moves :
 Proof. exact sp_splice_perm. Qed.
 
 
+(* ---- histories ---- *)
+From AV.Model Require Import Base Bytes Vec Ops Interp.
+From AV.Spec Require Import WorldSpec.
+From AV.Proofs Require Import WorldProofs OwnHistory.
+(** WHOLE HISTORIES (this replaces the PARTIAL remark in the header for the fragment of AV.Props.C01).  On the list specification: after EVERY history the identities created so far are, as a multiset, exactly those visible in some vector + those destroyed + those leaked by a forgotten handle ([C03_history_accounting]); hence for non-zero-sized types nothing is destroyed twice, nothing destroyed or leaked is still visible, nothing is visible twice ([C03_history_exactly_once], [C03_history_no_double_drop]); when all vectors are gone and nothing was leaked, everything created was destroyed - for zero-sized types this is the accounting by count ([C03_history_all_destroyed]).  [C03_history_events_are_the_specs] transfers it to the byte-level machine: its destructor events in every step are the specification's (and its snapshots are the specification's lists, C01_history_snapshots). *)
+(** one step *)
+Theorem C03_step_accounting :
+  forall c : cfg,
+         c_dg c = true ->
+         forall (st : astate) (nx : N) (o : op) (r : sres) (D L : list N),
+         1 <= nx ->
+         spec_step c st nx o = Some r ->
+         Permutation (created c nx) (vis st ++ D ++ L) ->
+         Permutation (created c (s_nx r)) (vis (s_st r) ++ (D ++ drops (s_evs r)) ++ L ++ leak_of c st o).
+Proof. exact step_own. Qed.
+
+Theorem C03_history_accounting :
+  forall (c : cfg) (ops : list op) (rs : list sres),
+         c_dg c = true ->
+         spec_run c [] 1 ops = Some rs ->
+         Permutation (created c (snd (end_of [] 1 rs)))
+           (vis (fst (end_of [] 1 rs)) ++ hist_drops rs ++ hist_leaks c [] 1 ops).
+Proof. exact history_own_init. Qed.
+
+Theorem C03_history_exactly_once :
+  forall (c : cfg) (ops : list op) (rs : list sres),
+         c_dg c = true ->
+         c_sz c <> 0 ->
+         spec_run c [] 1 ops = Some rs ->
+         NoDup (vis (fst (end_of [] 1 rs)) ++ hist_drops rs ++ hist_leaks c [] 1 ops).
+Proof. exact history_exactly_once. Qed.
+
+Theorem C03_history_no_double_drop :
+  forall (c : cfg) (ops : list op) (rs : list sres),
+         c_dg c = true ->
+         c_sz c <> 0 ->
+         spec_run c [] 1 ops = Some rs ->
+         NoDup (hist_drops rs) /\
+         NoDup (vis (fst (end_of [] 1 rs))) /\
+         (forall t : N, In t (hist_drops rs) -> ~ In t (vis (fst (end_of [] 1 rs)))).
+Proof. exact history_no_double_drop. Qed.
+
+Theorem C03_history_all_destroyed :
+  forall (c : cfg) (ops : list op) (rs : list sres),
+         c_dg c = true ->
+         spec_run c [] 1 ops = Some rs ->
+         vis (fst (end_of [] 1 rs)) = [] ->
+         hist_leaks c [] 1 ops = [] ->
+         Permutation (created c (snd (end_of [] 1 rs))) (hist_drops rs) /\
+         length (hist_drops rs) = N.to_nat (snd (end_of [] 1 rs) - 1).
+Proof. exact history_all_destroyed. Qed.
+
+Theorem C03_history_events_are_the_specs :
+  forall (c : cfg) (ops : list op) (w : world) (st : astate) (rs : list sres),
+         Rep.cfg_wf c ->
+         WRep c w st ->
+         spec_run c st (unext (wuw w)) ops = Some rs ->
+         Admissible c w ops ->
+         Forall2
+           (fun (sr : step_result) (r : sres) =>
+            filter Rep.is_user_event (world_events (sr_world sr)) = s_evs r) (run_hist c ops w) rs.
+Proof. exact history_events. Qed.
+
+(* ---- end histories ---- *)
 Print Assumptions C03_step.
 Print Assumptions C03_no_double_drop.
 Print Assumptions C03_visible_alive.
@@ -94,3 +159,9 @@ Print Assumptions C03_swap_remove_moves.
 Print Assumptions C03_pop_moves.
 Print Assumptions C03_drain_moves.
 Print Assumptions C03_splice_moves.
+Print Assumptions C03_step_accounting.
+Print Assumptions C03_history_accounting.
+Print Assumptions C03_history_exactly_once.
+Print Assumptions C03_history_no_double_drop.
+Print Assumptions C03_history_all_destroyed.
+Print Assumptions C03_history_events_are_the_specs.
